@@ -56,6 +56,14 @@ def lefts():
         out.append(("L5", "AB", v + w, ("m", (
             ("a", A("A", v)), ("b", A("B", w)),
             ("c", ("l", (R("A"), R("B"))))))))
+    # the left document already owns the name the rename scheme derives
+    for v, w in (("x", "y"), ("y", "x"), ("x", "x")):
+        out.append(("L6", "A+A_1", v + w, ("m", (
+            ("a", A("A", v)), ("b", A("A_1", w)),
+            ("c", ("l", (R("A"), R("A_1"))))))))
+        out.append(("L7", "A+A_1+A_1_2", v + w, ("m", (
+            ("a", A("A", v)), ("b", A("A_1", w)), ("b2", A("A_1_2", "zz")),
+            ("c", ("l", (R("A"), R("A_1"), R("A_1_2"))))))))
     out.append(("L0", "-", "x", ("m", (("a", "x"), ("b", "x")))))
     return out
 
@@ -141,6 +149,21 @@ def run_shard(shard):
             for mpol in MPOL:
                 check(st, ldoc, rdoc, ltext, rtext, apol, mpol,
                       (ltag, rtag, lname, rname))
+    # chains of two merges (right documents with disjoint keys so that both
+    # survive under deep hash merging)
+    chain_r = [r for r in RIGHTS if r[0] in ("R1", "R3", "R5", "R6")]
+    for i, (t1, n1, v1, s1) in enumerate(chain_r):
+        for (t2, n2, v2, s2) in chain_r[i % 3::3]:
+            r1t = corpus.render(s1)
+            r2t = corpus.render(s2).replace('"d"', '"d2"').replace(
+                '"e"', '"e2"').replace('"f"', '"f2"').replace('"g"', '"g2"')
+            try:
+                r1d, r2d = corpus.load(r1t), corpus.load(r2t)
+            except corpus.LoadError:
+                continue
+            for apol in ("rename", "left", "right"):
+                check_chain(st, ldoc, r1d, r2d, (ltext, r1t, r2t), apol,
+                            MPOL[0])
     st.sample({"lhs": ltext, "rhs": corpus.render(RIGHTS[li % len(RIGHTS)][3]),
                "anchors": "rename"})
     return st
@@ -229,7 +252,56 @@ def check(st, ldoc, rdoc, ltext, rtext, apol, mpol, tags):
         st.fail("%s|reload" % cls, case, "dump reloads to the same data", bad)
 
 
+def check_chain(st, ldoc, r1, r2, texts, apol, mpol):
+    """Two right-hand documents merged one after the other into the same
+    Merger (what yaml-merge a b c does): the invariants of a single merge
+    must hold for the end result."""
+    from yamlpath.merger import Merger
+    from yamlpath.merger.exceptions import MergeException
+    st.evaluations += 1
+    st.transitions += 2
+    case = {"lhs": texts[0], "rhs": texts[1], "rhs2": texts[2],
+            "anchors": apol, "policies": mpol, "chain": True}
+    cfg = mergerun.make_config(mpol, anchors=apol)
+    try:
+        Merger.depwarn_printed = False
+        merger = Merger(corpus.LOG, mergerun.fresh(ldoc), cfg)
+        merger.merge_with(mergerun.fresh(r1))
+        merger.merge_with(mergerun.fresh(r2))
+    except MergeException:
+        st.outcomes["chain:refused"] += 1
+        return
+    except Exception as ex:               # pylint: disable=broad-except
+        from vkit import qrun
+        st.fail("chain|crash|%s@%s" % (type(ex).__name__, qrun.where(ex)),
+                case, "a merged document", repr(ex)[:160])
+        return
+    st.outcomes["chain:ok"] += 1
+    st.states += 1
+    st.sig("chain", texts, apol, mpol["hashes"])
+    got = corpus.canon(merger.data, anchors=True)
+    for n, vals in anchors_in(got).items():
+        if len(vals) > 1:
+            st.fail("chain|%s|anchor-two-values" % apol, case,
+                    "every use of &%s reads one value" % n,
+                    "%r" % sorted(map(repr, vals)))
+            return
+    bad = editrun.reload_check(merger.data)
+    if bad:
+        st.fail("chain|%s|reload" % apol, case,
+                "dump reloads to the same data", bad)
+
+
 def replay(case):
+    if case.get("chain"):
+        st = core.Stats(None)
+        check_chain(st, corpus.load(case["lhs"]), corpus.load(case["rhs"]),
+                    corpus.load(case["rhs2"]),
+                    (case["lhs"], case["rhs"], case["rhs2"]),
+                    case["anchors"], case["policies"])
+        for lst in st.fails.values():
+            return lst[0]
+        return None
     st = core.Stats(None)
     check(st, corpus.load(case["lhs"]), corpus.load(case["rhs"]),
           case["lhs"], case["rhs"], case["anchors"], case["policies"], "?")
